@@ -13,9 +13,9 @@ for l in open('/verif/known_findings.jsonl'):
     if d['status'] == 'known':
         known.append('| %s | `%s` | %s |' % (d['property'], d['signature'].replace('|', '\\|'), d['what'].replace('|', '\\|')))
 seeds = []
-for d in sorted(glob.glob('/verif/seeded/*')):
+for d in sorted(glob.glob('/verif/seeded/*/')):
     m = json.load(open(d + '/meta.json'))
-    seeds.append('| %s | %s | %s |' % (d.split('/')[-1], ', '.join(m['detected_by']), m['detection']))
+    seeds.append('| %s | %s | %s |' % (d.rstrip('/').split('/')[-1], ', '.join(m['detected_by']), m['detection']))
 t = t.replace('@@FIXES@@', '\n'.join(fixes)).replace('@@KNOWN@@', '\n'.join(known)).replace('@@SEEDS@@', '\n'.join(seeds))
 t = t.replace('@@NFIX@@', str(len(fixes))).replace('@@NKNOWN@@', str(len(known))).replace('@@NSEED@@', str(len(seeds)))
 open('/verif/DESIGN.md', 'w').write(t)
